@@ -13,6 +13,14 @@ CHECKS = {
         "Rust oracle; allocator behind Vec::reserve is an oracle input; usize overflow out of scope.",
    design="§5 C12"),
 }
+CHECKS["C16"] = dict(
+   text="Proof: C16_utf8_exact (the validator accepts a byte string iff it is a concatenation of RFC 3629 encodings of Unicode scalar values; all lengths, "
+        "pure arithmetic proof, no sweep) and the view round-trip / NULL-normalisation theorems over an abstract pointer model. Tied to the code by "
+        "driving the real From/Into/Deref impls for 14 element types and the exported diplomat_is_str (all strings of length <= 2 exhaustively plus a "
+        "near-valid stream; thorough: all of length 3) and proving in Coq that the model reproduces every observation.",
+   note="Trusted: Coq kernel+vm_compute; hand-written models Slices/Model.v, Utf8/Model.v; core::str::from_utf8 is std code reached only through "
+        "diplomat_is_str; pointer provenance is not modelled.",
+   design="§5 C16")
 NOT_YET = {
 }
 ALL = [f"C{i:02d}" for i in range(1, 18)]
